@@ -46,6 +46,12 @@ theorem fact_bind_reads_pod_from_lister : Generated.Plugin.bindReadsPodFromListe
 /-- The release-event loop drops an event after the 4th failed unbind (`retryTimes > 3`); the harness mirrors it. -/
 theorem fact_unbind_retry_limit : Generated.Plugin.unbindMaxRetries = 3 := by decide
 
+/-- ConfigurePool keeps a stored object for the first pool whose pod subnet AND ranges contain its address (several pools
+    may share one pod subnet): the model's pool lookup `Pool.has` is exactly that test. -/
+theorem pool_lookup_is_subnet_and_ranges (p : Pool) (ip : Nat) : p.has ip = (p.inSubnet ip && inRanges p.ranges ip) := by
+  have : Generated.Plugin.configurePoolMatchesSubnetAndRanges = true := by decide
+  simp [Pool.has, this]
+
 /-- "While a pod that was bound by galaxy-ipam still exists and has not finished, its IP stays assigned to it":
     after EVERY finite history of moves (any admissible or inadmissible choices, any fault indices) within the
     property's scope (`allAssumed`: non-empty names, bind requests carry the pod UID, reloads keep live pods' addresses
@@ -72,6 +78,19 @@ theorem late_event_keeps_ip (c : Conf) (ms : List Move) (hok : allAssumed facts 
     (i fault pfault : Nat) :
     ∀ q, LiveBound (next facts (run facts (init c) ms) (.deliver i fault pfault)).pods q → ∀ hd, hd ∈ q.handed →
       OwnedBy (next facts (run facts (init c) ms) (.deliver i fault pfault)) q hd.ip := by
+  rw [fact_plugin_shape] at hok ⊢
+  intro q hq hd hm
+  exact inv_owned (inv_next _ _ (inv_run ms _ (inv_init c) hok) rfl) q hq hd hm
+
+/-- "all interleavings of resync ... with bind": the resync pass is two kinds of moves - `resyncSnap` (fetchChecklist) and
+    `resyncRec ip` (one iteration: pod lock, re-read, compare key, ...) - with ANY moves in between; every iteration,
+    whenever it runs and whatever snapshot entry it was started from, leaves every live bound pod's addresses owned.
+    (The obligation is exactly "the iteration uses the record re-read under the lock": fact resyncRechecksUnderLock,
+    which includes the assignment `obj.fip = fip`.) -/
+theorem interleaved_resync_keeps_ip (c : Conf) (ms : List Move) (hok : allAssumed facts (init c) ms = true)
+    (ip : IP) (fault pfault : Nat) :
+    ∀ q, LiveBound (next facts (run facts (init c) ms) (.resyncRec ip fault pfault)).pods q → ∀ hd, hd ∈ q.handed →
+      OwnedBy (next facts (run facts (init c) ms) (.resyncRec ip fault pfault)) q hd.ip := by
   rw [fact_plugin_shape] at hok ⊢
   intro q hq hd hm
   exact inv_owned (inv_next _ _ (inv_run ms _ (inv_init c) hok) rfl) q hq hd hm
@@ -240,5 +259,38 @@ set_option maxRecDepth 100000 in
 example : allAssumed facts (init conf3) reloadDeleteFault = true ∧
     (Tbl.get (run facts (init conf3) reloadDeleteFault).alloc 168427524).map (fun r => (r.key, r.uid)) = some (keyOf podA2'', 2) := by
   refine ⟨by decide, by decide⟩
+
+/-- a resync iteration that judges by the snapshot taken before the pod lock (the line `obj.fip = fip` dropped), in the
+    code before the whole-key check -/
+def factsSnapshot : Facts := { Facts.good with resyncRechecks := false, wholeKeyCheck := false }
+
+/-- resync snapshots the address owned by the first incarnation; before the pass reaches it the delete event is handled
+    and the second incarnation is bound to the same address; then the iteration runs -/
+def interleaved : List Move := [
+  .scale .sts "ns1" "a" 2,
+  .createPod "ns1" "a-0" .sts "a" "" 0 [] true,
+  .listerSync true true,
+  .filter "ns1" "a-0" ["n1"] {} 0,
+  .bind "ns1" "a-0" 1 "n1" { pick := some 168427522 } 0 0,
+  .resyncSnap,
+  .deletePod "ns1" "a-0",
+  .deliver 0 0 0,
+  .createPod "ns1" "a-0" .sts "a" "" 0 [] true,
+  .listerSync true true,
+  .filter "ns1" "a-0" ["n1"] {} 0,
+  .bind "ns1" "a-0" 2 "n1" { pick := some 168427522 } 0 0,
+  .resyncRec 168427522 0 0 ]
+
+set_option maxRecDepth 100000 in
+/-- The interleaving the atomic `resync` move could not express: WITHOUT the re-read record (and without the later
+    whole-key check) the iteration judges the live pod against the old uid and releases its address.  With the
+    whole-key check of the current code the same change is masked (`keyOwnedByRunningPod` finds the live pod's record
+    under the key - second conjunct), which is why a seeded removal of `obj.fip = fip` has no failing input today. -/
+theorem interleaved_resync_counter :
+    (allAssumed factsSnapshot (init conf1) interleaved = true ∧
+      LiveBound (run factsSnapshot (init conf1) interleaved).pods podA2 ∧
+      Tbl.get (run factsSnapshot (init conf1) interleaved).alloc 168427522 = none) ∧
+    (Tbl.get (run { Facts.good with resyncRechecks := false } (init conf1) interleaved).alloc 168427522).map (·.uid) = some 2 := by
+  refine ⟨⟨by decide, ⟨by decide, by decide, by decide⟩, by decide⟩, by decide⟩
 
 end Galaxy.Props.C04
